@@ -50,8 +50,29 @@ def gen_digits(cs, digs='0123456789', first=None, maxn=6):
     return out
 
 
+def gen_wide_int(cs):
+    """an integer literal in a random base whose value sits at a machine-word border (2^k-1, 2^k, 2^k+1 for k in 8, 16, 31, 32,
+    53, 63, 64, 65, 127, 128) or whose digit count sits at the border of what fits in 64 bits for that base, first digit random"""
+    base, pre, digs = cs.pick([(2, '0b', '01'), (8, '0o', '01234567'), (10, '', '0123456789'), (16, '0x', '0123456789abcdef')])
+    if cs.bool():
+        v = (1 << cs.pick([8, 16, 31, 32, 53, 63, 64, 65, 127, 128])) + cs.pick([-1, 0, 1])
+        body = {2: bin(v)[2:], 8: oct(v)[2:], 10: str(v), 16: hex(v)[2:]}[base]
+    else:
+        n = {2: 64, 8: 22, 10: 20, 16: 16}[base] + cs.pick([-1, 0, 0, 1])
+        body = cs.pick(digs[1:]) + ''.join(cs.pick(digs) for _ in range(n - 1))
+    if cs.bool(40) and len(body) > 4:
+        body = body[:3] + '_' + body[3:]
+    if pre and cs.bool(60):
+        pre = pre.upper()
+    if base == 16 and cs.bool(80):
+        body = body.upper()
+    return pre + body
+
+
 def gen_int(cs):
-    k = cs.choice(12)
+    k = cs.choice(13)
+    if k == 12:
+        return gen_wide_int(cs)
     if k < 4:
         return cs.pick(['0', '1', '2', '7', '10', '42', '255', '1000', '00', '0_0', '000'])
     if k < 6:
@@ -228,7 +249,9 @@ def gen_field(cs, gen, q, depth=0):
     if q[0] in text:
         text = 'x'
     s = '{'
-    s += ' ' if text.startswith('{') or cs.bool(40) else ''
+    # (`{{` is a literal brace only at the top level of the literal; inside a format spec it opens a nested field whose
+    # expression starts with a brace display, so the separating blank is optional there)
+    s += ' ' if (text.startswith('{') and (depth == 0 or cs.bool(128))) or cs.bool(40) else ''
     s += text
     selfdoc = False
     if depth == 0 and cs.bool(40):
